@@ -129,6 +129,7 @@ fn prf_fill(tag: u64, index: u32, dest: &mut [u8]) {
 /// The single function behind all seams. `can_fail`: whether the caller can
 /// report an error to the library.
 fn sim_fill(dest: &mut [u8], source: Source, can_fail: bool) -> Result<(), ()> {
+    crate::ffiyield::seam_yield();
     CTX.with(|c| {
         let mut c = c.borrow_mut();
         let c = &mut *c;
